@@ -33,6 +33,9 @@ func runC02e2e(cfg config, rep *hx.Report, n int) {
 	base, _ := os.MkdirTemp("", "c02e")
 	defer os.RemoveAll(base)
 	for i := 0; i < n; i++ {
+		if tooManyHangs(rep) {
+			continue
+		}
 		cs := rng.Pick(3, 16, 64)
 		streams := 1 + rng.Intn(4)
 		resume := rng.Bool()
